@@ -11,6 +11,31 @@ import (
 // transactions have no effect (property C05).  Application hashes are not compared: a failed
 // delivery may leave an empty receiver account behind, which no query can tell from an absent one.
 func ForkDelete(h *History, scratch, label string) (diffs []string, deleted int, err error) {
+	return forkDeleteIf(h, scratch, label, func(string) bool { return true })
+}
+
+// deliberatelyInvalid: notes of the generator's invalid stream (transactions built to be refused)
+func deliberatelyInvalid(note string) bool {
+	for _, p := range []string{"tamper-", "forged-", "signed-by-other", "wrong-chain", "reused-signature", "bad-nonce", "bad-gasprice", "low-gas",
+		"unknown-sender", "replay", "insufficient-funds", "amount-2^255", "unstake-not-owner", "unstake-unknown-hash", "unstake-short-hash",
+		"vote-bad-choice", "vote-negative-choice", "withdraw-excessive", "setdoc-too-long", "stake-not-multiple", "script-proposal-by-non-validator",
+		"script-call-below-minimum-fee", "evm-transfer-to-contract-low-gas"} {
+		if len(note) >= len(p) && note[:len(p)] == p {
+			return true
+		}
+	}
+	return false
+}
+
+// ForkDeleteInvalidOnly removes only the failed transactions that were BUILT to be refused.  A
+// transaction built to be valid that failed stays: if it failed because of something a refused
+// transaction left behind (a consumed limit, a moved nonce), it succeeds here and shows as a difference
+// — which removing all failed transactions together would hide.
+func ForkDeleteInvalidOnly(h *History, scratch, label string) (diffs []string, deleted int, err error) {
+	return forkDeleteIf(h, scratch, label, deliberatelyInvalid)
+}
+
+func forkDeleteIf(h *History, scratch, label string, pred func(note string) bool) (diffs []string, deleted int, err error) {
 	h2 := &History{Seed: h.Seed, Genesis: h.Genesis, WatchA: h.WatchA, WatchH: h.WatchH, StrTab: h.StrTab, OptTab: h.OptTab, Keys: h.Keys}
 	type pos struct{ b, i int }
 	var kept [][]int
@@ -18,7 +43,7 @@ func ForkDelete(h *History, scratch, label string) (diffs []string, deleted int,
 		nb := &BlockSpec{Height: b.Height, Proposer: b.Proposer, Votes: b.Votes, Evidence: b.Evidence}
 		var idx []int
 		for i, t := range b.Txs {
-			if bi < len(h.Obs) && i < len(h.Obs[bi].Delivers) && h.Obs[bi].Delivers[i].Code != 0 {
+			if bi < len(h.Obs) && i < len(h.Obs[bi].Delivers) && h.Obs[bi].Delivers[i].Code != 0 && pred(t.Spec.Note) {
 				deleted++
 				continue
 			}
